@@ -66,6 +66,12 @@ type numTwice[T any] struct {
 	V T `@Tok ";" @Tok`
 }
 
+// numNegated: the number is whatever token is not a semicolon (captured through a negation)
+type numNegated[T any] struct {
+	A string `@Tok ";"`
+	V T      `@~";"`
+}
+
 type numOuter[T any] struct {
 	N *numScalar[T] `  @@ ";"`
 	S string        `| @Tok ";"`
@@ -129,6 +135,7 @@ func mkNumKind[T any](name, class string, bits int) numKind {
 		pNested *participle.Parser[numNested[T]]
 		pTwice  *participle.Parser[numTwice[T]]
 		pPadded *participle.Parser[numScalar[T]]
+		pNeg    *participle.Parser[numNegated[T]]
 	)
 	opts := []participle.Option{participle.Lexer(c17Lex), participle.Elide("WS")}
 	return numKind{name: name, class: class, bits: bits, run: func(shape, input string) (res numRes) {
@@ -228,6 +235,15 @@ func mkNumKind[T any](name, class string, bits int) numKind {
 						res.vals = fieldVals(reflect.ValueOf(ast.N).Elem().Field(0))
 					}
 				}
+			case "negated":
+				if pNeg == nil {
+					pNeg = participle.MustBuild[numNegated[T]](opts...)
+				}
+				ast, err := pNeg.ParseString("f", input)
+				res.err = err
+				if err == nil {
+					res.vals = fieldVals(reflect.ValueOf(ast).Elem().Field(1))
+				}
 			case "after":
 				if pAfter == nil {
 					pAfter = participle.MustBuild[numAfter[T]](opts...)
@@ -297,7 +313,7 @@ func (c *c17Case) input() string {
 		return c.Texts[0] // the text ends in a blank that belongs to the token
 	case "outer":
 		return c.Texts[0] + c.Spaces + ";"
-	case "after":
+	case "after", "negated":
 		return "x;" + c.Spaces + c.Texts[0]
 	}
 	return c.Texts[0]
@@ -383,7 +399,7 @@ func checkC17(c *c17Case, r *vstat.Run) outcome {
 	lr := lexAll(def, "f", input)
 	var toks []lexer.Token
 	for _, t := range lr.toks {
-		if !t.EOF() && strings.TrimSpace(t.Value) != "" && t.Value != ";" && !((c.Shape == "after" || c.Shape == "nested") && t.Value == "x") {
+		if !t.EOF() && strings.TrimSpace(t.Value) != "" && t.Value != ";" && !((c.Shape == "after" || c.Shape == "nested" || c.Shape == "negated") && t.Value == "x") {
 			toks = append(toks, t)
 		}
 	}
@@ -577,7 +593,7 @@ func genNumText(t *rapid.T) (string, bool) {
 func TestC17(t *testing.T) {
 	runProp(t, "C17", c17Rule, func(t *rapid.T, r *vstat.Run) {
 		k := numKinds[rapid.IntRange(0, len(numKinds)-1).Draw(t, "kind")]
-		c := &c17Case{Kind: k.name, Shape: rapid.SampledFrom([]string{"scalar", "scalar", "ptr", "slice", "slicecap", "signed", "signedptr", "nested", "twice", "padded", "outer", "after"}).Draw(t, "shape")}
+		c := &c17Case{Kind: k.name, Shape: rapid.SampledFrom([]string{"scalar", "scalar", "ptr", "slice", "slicecap", "signed", "signedptr", "nested", "twice", "padded", "outer", "after", "negated"}).Draw(t, "shape")}
 		nt := false
 		switch c.Shape {
 		case "slice", "slicecap":
@@ -612,7 +628,7 @@ func TestC17(t *testing.T) {
 			s, b := genNumText(t)
 			nt = b
 			c.Texts = []string{s}
-			if c.Shape == "after" || c.Shape == "outer" {
+			if c.Shape == "after" || c.Shape == "outer" || c.Shape == "negated" {
 				c.Spaces = rapid.SampledFrom([]string{"", "", " ", "\n"}).Draw(t, "sp")
 			}
 		}
